@@ -1,4 +1,5 @@
 from __future__ import annotations
+import copy
 from .service_access_point import DENRequest, PriorityLevel
 from ...facilities.decentralized_environmental_notification_service.den_service import (
     DecentralizedEnvironmentalNotificationService,
@@ -76,6 +77,9 @@ class EmergencyVehicleApproachingService:
                 - "lon" : Longitude in decimal degrees.
                 - "altHAE" : Altitude in meters above the WGS-84 ellipsoid.
         """
+        # Requests already handed to the DEN service keep a reference to the event position they
+        # were created with: update a fresh copy so that running repetitions are not relocated.
+        self.event_position = copy.deepcopy(self.event_position)
         if "lat" in tpv.keys():
             self.event_position["latitude"] = int(tpv["lat"] * 10000000)
         if "lon" in tpv.keys():
